@@ -1,0 +1,41 @@
+// Copyright 2020-2025 Buf Technologies, Inc.
+//
+// Licensed under the Apache License, Version 2.0 (the "License");
+// you may not use this file except in compliance with the License.
+// You may obtain a copy of the License at
+//
+//      http://www.apache.org/licenses/LICENSE-2.0
+//
+// Unless required by applicable law or agreed to in writing, software
+// distributed under the License is distributed on an "AS IS" BASIS,
+// WITHOUT WARRANTIES OR CONDITIONS OF ANY KIND, either express or implied.
+// See the License for the specific language governing permissions and
+// limitations under the License.
+
+//go:build !verif
+
+// Package verifhook provides no-op seams used by external verification harnesses.
+//
+// Without the "verif" build tag every function is an empty inlinable stub.
+package verifhook
+
+// Point marks a step at which a harness may schedule, inject a failure or stop the caller.
+func Point(string) error { return nil }
+
+// ShortWrite reports how many bytes of a failed write of size n should still be written.
+func ShortWrite(error, int) int { return 0 }
+
+// Spawn announces that the caller is about to start a goroutine and returns its token.
+func Spawn() int { return 0 }
+
+// Begin is called first thing in a goroutine announced with Spawn.
+func Begin(int) {}
+
+// End is called when the goroutine announced with Spawn has finished its work.
+func End(int) {}
+
+// Acquire is called before the caller may block on a semaphore with the given capacity.
+func Acquire(int) {}
+
+// Wait is called before the caller blocks until all spawned goroutines have ended.
+func Wait() {}
